@@ -87,8 +87,9 @@ end
 
 def shapeFuel : Nat := 200
 
-/-- children of an emitted pair of rule `r` (a pair is emitted only when the atomicity seen by `rule()` is not
-    Atomic; NonAtomic and CompoundAtomic give the same tokens, only Atomic suppresses them) -/
+/-- children of an emitted pair of rule `r`. A pair of a normal rule is emitted only when the atomicity seen by
+    `rule()` is not Atomic, i.e. NonAtomic or CompoundAtomic: the shape is the union of the two (for this grammar
+    they are the same expression, `mkAlt a a = a`). -/
 def ruleShape (g : G) (r : RuleId) : Re :=
   match g.look r with
   | none => .eps
@@ -97,7 +98,8 @@ def ruleShape (g : G) (r : RuleId) : Re :=
     match kind with
     | .silent => .eps
     | .normal =>
-      if special then exprShape g shapeFuel false .atomic body else exprShape g shapeFuel true .nonAtomic body
+      if special then exprShape g shapeFuel false .atomic body
+      else mkAlt (exprShape g shapeFuel true .nonAtomic body) (exprShape g shapeFuel true .compound body)
     | .atomic => exprShape g shapeFuel false .atomic body
     | .compound => exprShape g shapeFuel false .compound body
     | .nonAtomic => exprShape g shapeFuel true .nonAtomic body
